@@ -463,8 +463,8 @@ func (rm *realManager) exec(rep *vh.Report, a MMAct, pre MMState, replayObj any)
 				where = "hash pool"
 			}
 			rep.Violate("C17/manager/blacklisted-peer-offered",
-				fmt.Sprintf("Manager.Peer(%s) returned %s from the %s although the peer is black-listed (blocked in the connection gater) and black-listing is enabled",
-					arg.Hash, pid, where), replayObj)
+				fmt.Sprintf("Manager.Peer(%s) returned %q from the %s although the peer is black-listed (blocked in the connection gater) and black-listing is enabled",
+					arg.Hash, string(pid), where), replayObj)
 		}
 		return fmt.Sprintf("%q", string(pid)), &MReq{Peer: string(pid), Hash: arg.Hash}, done, nil
 	case "done":
